@@ -28,7 +28,7 @@ CONSTANTS Devs,          \* set of deviation names switched on
 EnvKinds   == {"none", "struct", "ptr", "map", "mapnil"}           \* mapnil: a map environment with a nil member
 Expects    == {"none", "bool", "int64", "float64"}
 Operators  == {"none", "ok", "missing", "illshaped", "nonfunc", "nilmember"}
-ConstExprs == {"none", "ok", "missing", "nonfunc", "panicking", "beforeenv"}
+ConstExprs == {"none", "ok", "missing", "nonfunc", "panicking", "beforeenv", "nilmember"}
 Patches    == {"none", "identity", "replaceleaf", "constnode", "replaceroot"}
 ExprClasses == {"bool", "int", "float", "string", "nil", "any", "ill", "unknown", "syntax", "lexical", "empty",
                 "boom", "nilfn", "closure", "plus", "constcall", "huge", "extreme", "widetext"}
@@ -44,6 +44,7 @@ Sensible(c) ==
   /\ (c.constexpr \notin {"none", "beforeenv"} => c.env # "none")
   /\ (c.constexpr # "none" => c.expr \in {"constcall", "int", "unknown"})
   /\ (c.operator = "nilmember" => c.env = "mapnil")
+  /\ (c.constexpr = "nilmember" => c.env = "mapnil")
   /\ (c.env = "mapnil" => c.runenv \in {"zero", "nilmembers"})
   /\ (c.patch # "none" => c.expr \in {"int", "bool", "ill", "unknown", "closure", "nil"})
   /\ (c.runenv = "wrongtypes" => c.env \in {"map", "none"})
@@ -62,7 +63,7 @@ StageResult(c, st, dv) ==
     [] st = "configcheck" ->
          IF c.operator = "nilmember" /\ Dev("Dev_OperatorNilMember") THEN "panic"         \* Kind() of a nil reflect.Type
          ELSE IF c.operator \in {"missing", "illshaped", "nonfunc", "nilmember"} THEN "error"
-         ELSE IF c.constexpr \in {"missing", "nonfunc", "beforeenv"} THEN "error"
+         ELSE IF c.constexpr \in {"missing", "nonfunc", "beforeenv", "nilmember"} THEN "error"
          ELSE "ok"
     [] st = "parse" -> IF c.expr \in {"syntax", "lexical", "empty"} THEN "error"
                        ELSE IF c.expr \in {"extreme", "widetext"} THEN "maybe-error" ELSE "ok"
